@@ -202,6 +202,12 @@ func (n *SyncerNode) Announce(both bool) {
 		n.S.BroadcastV2Header(b.Header())
 	}
 	if b.V2 != nil {
+		if n.Stripped {
+			// as a miner does whose pool held every transaction of its block: only
+			// the hashes travel, a receiver that lacks a transaction asks for it
+			n.S.BroadcastV2BlockOutline(gateway.OutlineBlock(b, b.Transactions, b.V2Transactions()))
+			return
+		}
 		n.S.BroadcastV2BlockOutline(gateway.OutlineBlock(b, n.Node.CM.PoolTransactions(), n.Node.CM.V2PoolTransactions()))
 	}
 }
